@@ -148,9 +148,11 @@ type snap struct {
 
 func (s *snap) has(i uint64) bool { return i >= 1 && i <= 5 && s.data[i] != nil }
 
-// HarnessReadersWriter (C06): one writer runs a script (append with rotation,
-// head truncation, tail truncation followed by a re-append of different content
-// at the same index) while a reader issues FirstIndex / LastIndex / GetLog(i).
+// HarnessReadersWriter (C06): one writer runs a script (append and head
+// truncation; tail truncation followed by a re-append of different content at the
+// same index; truncate everything and restart elsewhere; appends that fill the
+// tail - rotation queued - then a truncation of the whole log) while a reader
+// issues FirstIndex / LastIndex / GetLog(i).
 // The reader's result must be what some log state current between the call's
 // start and its return gives; an error other than ErrNotFound is allowed only
 // for an index a truncation removed during the read; an entry present and
@@ -170,7 +172,7 @@ func HarnessReadersWriter() {
 	models := []snap{{first: 1, last: 2, data: [6][]byte{nil, d[1], d[2]}}}
 	started, completed := 0, 0 // writer operations begun / finished (the engine runs one goroutine at a time; natively guarded by mu)
 	syncsAtStart := make([]int, 8)
-	script := vrt.Choice("script", vrt.Param("scripts", 3))
+	script := vrt.Param("script0", 0) + vrt.Choice("script", vrt.Param("scripts", 4))
 	e.W.SchedPoints = vrt.Param("envpoints", 1) == 1
 	wal.VerifSched = func(p string) { vrt.Sched(p) }
 	vrt.SchedMode(vrt.Param("P", 2))
@@ -190,7 +192,7 @@ func HarnessReadersWriter() {
 	vrt.Spawn("writer", func() {
 		vrt.Sched("start")
 		switch script {
-		case 0: // append entry 3 (seals the 2-entry segment: rotation), then head truncation
+		case 0: // append entry 3 (into the fresh tail: entries 1-2 filled and sealed the first segment), then a head truncation inside the sealed segment
 			step(snap{1, 3, [6][]byte{nil, d[1], d[2], d[3]}}, func() error { return e.L.StoreLog(&raft.Log{Index: 3, Term: 1, Data: d[3]}) })
 			step(snap{2, 3, [6][]byte{nil, nil, d[2], d[3]}}, func() error { return e.L.DeleteRange(0, 1) })
 		case 1: // append 3, tail-truncate it, re-append different content at 3
@@ -199,6 +201,12 @@ func HarnessReadersWriter() {
 			step(snap{1, 3, [6][]byte{nil, d[1], d[2], d[4]}}, func() error { return e.L.StoreLog(&raft.Log{Index: 3, Term: 2, Data: d[4]}) })
 		case 2: // truncate everything, restart the log at a different index (base-index reset)
 			step(snap{0, 0, [6][]byte{}}, func() error { return e.L.DeleteRange(1, 9) })
+			step(snap{5, 5, [6][]byte{nil, nil, nil, nil, nil, d[5]}}, func() error { return e.L.StoreLog(&raft.Log{Index: 5, Term: 3, Data: d[5]}) })
+		case 3: // appends until the tail segment fills (rotation queued, maybe not yet run), then a head
+			// truncation of the WHOLE log (what raft does after a snapshot restore), then a restart at another index
+			step(snap{1, 3, [6][]byte{nil, d[1], d[2], d[3]}}, func() error { return e.L.StoreLog(&raft.Log{Index: 3, Term: 1, Data: d[3]}) })
+			step(snap{1, 4, [6][]byte{nil, d[1], d[2], d[3], d[4]}}, func() error { return e.L.StoreLog(&raft.Log{Index: 4, Term: 1, Data: d[4]}) })
+			step(snap{0, 0, [6][]byte{}}, func() error { return e.L.DeleteRange(1, 4) })
 			step(snap{5, 5, [6][]byte{nil, nil, nil, nil, nil, d[5]}}, func() error { return e.L.StoreLog(&raft.Log{Index: 5, Term: 3, Data: d[5]}) })
 		}
 	})
@@ -273,6 +281,15 @@ func HarnessReadersWriter() {
 	wal.VerifSched = nil
 	e.W.SchedPoints = false
 	vrt.Quiesce()
+	// everything has settled (the rotation goroutine included): the log is the writer's last state
+	fin := models[len(models)-1]
+	ff, err1 := e.L.FirstIndex()
+	fl, err2 := e.L.LastIndex()
+	vrt.Assert("C06.settled-state-is-the-writers-last", err1 == nil && err2 == nil && ff == fin.first && fl == fin.last)
+	if fin.last > 0 {
+		var out raft.Log
+		vrt.Assert("C06.settled-last-entry-readable", e.L.GetLog(fin.last, &out) == nil && bytes.Equal(out.Data, fin.data[fin.last]))
+	}
 	vrt.Reach("readers-writer-checked")
 }
 
@@ -302,13 +319,13 @@ func HarnessPoolRace() {
 		vrt.Sched("start")
 		var out raft.Log
 		err := e.L.GetLog(1, &out)
-		vrt.Assert("C06.concurrent-big-read-intact", err == nil && bytes.Equal(out.Data, big))
+		vrt.Assert("C06-C12.concurrent-big-read-intact", err == nil && bytes.Equal(out.Data, big))
 	})
 	vrt.Spawn("readerB", func() {
 		vrt.Sched("start")
 		var out raft.Log
 		err := e.L.GetLog(2, &out)
-		vrt.Assert("C06.concurrent-small-read-intact", err == nil && bytes.Equal(out.Data, small))
+		vrt.Assert("C06-C12.concurrent-small-read-intact", err == nil && bytes.Equal(out.Data, small))
 	})
 	vrt.JoinAll()
 	vrt.SchedOff()
@@ -319,3 +336,135 @@ func HarnessPoolRace() {
 }
 
 func init() { Harnesses["HarnessPoolRace"] = HarnessPoolRace }
+
+// HarnessStableRace (C08): a stable-store write races one other call - a stable
+// write to another key (SetUint64 or Set), a read of the key being written, an
+// append or a truncation - under every schedule with at most P preemptions at
+// the hooks of wal.go and at every metadata-store / VFS call. Afterwards, and
+// again after a clean reopen, every key holds the value of the latest
+// successful Set for THAT key (two writers on different keys never see each
+// other's value), a racing read saw the old or the new value, the log is what
+// the log operations alone make it, and the stable keys are what the stable
+// operations alone make them.
+func HarnessStableRace() {
+	seg := vrt.Param("seg", 100)
+	e, err := open(seg)
+	vrt.Assert("C08.open-ok", err == nil)
+	if err != nil {
+		return
+	}
+	d1, d2 := vrt.Bytes("d1", 1), vrt.Bytes("d2", 1)
+	vrt.Assert("C08.append-ok", e.L.StoreLogs([]*raft.Log{{Index: 1, Term: 1, Data: d1}, {Index: 2, Term: 1, Data: d2}}) == nil)
+	vrt.Quiesce()
+	k1, k2 := []byte("CurrentTerm"), []byte("LastVoteTerm")
+	old := vrt.U64("old")
+	vrt.Assert("C08.set-ok", e.L.SetUint64(k1, old) == nil)
+	a, b := vrt.U64("a"), vrt.U64("b")
+	va, vb := vrt.Bytes("va", 3), vrt.Bytes("vb", 3)
+	opA := vrt.Choice("opA", 2)
+	opB := vrt.Choice("opB", 6)
+	stored3, deleted1 := false, false
+	e.W.SchedPoints = true
+	wal.VerifSched = func(p string) { vrt.Sched(p) }
+	vrt.SchedMode(vrt.Param("P", 2))
+	vrt.Spawn("setterA", func() {
+		vrt.Sched("start")
+		if opA == 0 {
+			vrt.Assert("C08.race.set-ok", e.L.SetUint64(k1, a) == nil)
+		} else {
+			vrt.Assert("C08.race.set-ok", e.L.Set(k1, va) == nil)
+		}
+	})
+	vrt.Spawn("otherB", func() {
+		vrt.Sched("start")
+		switch opB {
+		case 0:
+			vrt.Assert("C08.race.set-ok", e.L.SetUint64(k2, b) == nil)
+		case 1:
+			vrt.Assert("C08.race.set-ok", e.L.Set(k2, vb) == nil)
+		case 2:
+			err := e.L.StoreLog(&raft.Log{Index: 3, Term: 1, Data: []byte{3}})
+			vrt.Assert("C08.race.append-ok", err == nil)
+			stored3 = err == nil
+		case 3:
+			err := e.L.DeleteRange(1, 1)
+			vrt.Assert("C08.race.delete-ok", err == nil)
+			deleted1 = err == nil
+		case 4:
+			if opA == 0 {
+				v, err := e.L.GetUint64(k1)
+				vrt.Assert("C08.race.get-sees-old-or-new", err == nil && (v == old || v == a))
+			} else {
+				v, err := e.L.Get(k1)
+				var o [8]byte
+				for i := 0; i < 8; i++ {
+					o[i] = byte(old >> (8 * i))
+				}
+				vrt.Assert("C08.race.get-sees-old-or-new", err == nil && (bytes.Equal(v, o[:]) || bytes.Equal(v, va)))
+			}
+		case 5:
+			// the same kind of write to the SAME key: either order is a linearization
+			if opA == 0 {
+				vrt.Assert("C08.race.set-ok", e.L.SetUint64(k1, b) == nil)
+			} else {
+				vrt.Assert("C08.race.set-ok", e.L.Set(k1, vb) == nil)
+			}
+		}
+	})
+	vrt.JoinAll()
+	vrt.SchedOff()
+	wal.VerifSched = nil
+	e.W.SchedPoints = false
+	vrt.Quiesce()
+	check := func(tag string) {
+		if opA == 0 {
+			v, err := e.L.GetUint64(k1)
+			if opB == 5 {
+				vrt.Assert("C08.race."+tag+".same-key-holds-one-of-the-two", err == nil && (v == a || v == b))
+			} else {
+				vrt.Assert("C08.race."+tag+".key-holds-its-own-latest-set", err == nil && v == a)
+			}
+		} else {
+			v, err := e.L.Get(k1)
+			if opB == 5 {
+				vrt.Assert("C08.race."+tag+".same-key-holds-one-of-the-two", err == nil && (bytes.Equal(v, va) || bytes.Equal(v, vb)))
+			} else {
+				vrt.Assert("C08.race."+tag+".key-holds-its-own-latest-set", err == nil && bytes.Equal(v, va))
+			}
+		}
+		switch opB {
+		case 0:
+			v, err := e.L.GetUint64(k2)
+			vrt.Assert("C08.race."+tag+".other-key-holds-its-own-latest-set", err == nil && v == b)
+		case 1:
+			v, err := e.L.Get(k2)
+			vrt.Assert("C08.race."+tag+".other-key-holds-its-own-latest-set", err == nil && bytes.Equal(v, vb))
+		default:
+			v, err := e.L.Get(k2)
+			vrt.Assert("C08.race."+tag+".unset-key-stays-empty", err == nil && len(v) == 0)
+		}
+		first, _ := e.L.FirstIndex()
+		last, _ := e.L.LastIndex()
+		wantFirst, wantLast := uint64(1), uint64(2)
+		if deleted1 {
+			wantFirst = 2
+		}
+		if stored3 {
+			wantLast = 3
+		}
+		vrt.Assert("C08.race."+tag+".log-untouched-by-stable-ops", first == wantFirst && last == wantLast)
+		var out raft.Log
+		vrt.Assert("C08.race."+tag+".log-entry-intact", e.L.GetLog(2, &out) == nil && bytes.Equal(out.Data, d2))
+	}
+	check("live")
+	vrt.Assert("C08.close-ok", e.L.Close() == nil)
+	err = e.reopen(seg)
+	vrt.Assert("C08.reopen-ok", err == nil)
+	if err != nil {
+		return
+	}
+	check("reopened")
+	vrt.Reach("stable-race-checked")
+}
+
+func init() { Harnesses["HarnessStableRace"] = HarnessStableRace }
